@@ -16,7 +16,7 @@ def tup(x):
 
 TAGS = {
     "query", "child", "desc", "name", "index", "slice", "wild", "keys", "filter", "or", "and", "not", "paren",
-    "cmp", "test", "call", "q", "key", "undef", "re",
+    "cmp", "test", "call", "q", "key", "undef", "re", "littest",
 }
 
 
